@@ -57,6 +57,9 @@ func ValidateCreateVestingAccount(fromAddress string, toAddress string, amount s
 	if amount.IsAnyNegative() {
 		return nil, nil, errors.Wrap(ErrParam, "create vesting account - negative coin amount")
 	}
+	if startTime < 0 || endTime < 0 {
+		return nil, nil, errors.Wrapf(ErrParam, "create vesting account - start time and end time cannot be negative (%d, %d)", startTime, endTime)
+	}
 	if startTime > endTime {
 		return nil, nil, errors.Wrapf(ErrParam, "create vesting account - start time is after end time error (%s > %s)", time.Unix(startTime, 0).String(), time.Unix(endTime, 0).String())
 	}
